@@ -38,6 +38,8 @@ pub struct Pred {
     pub failures: usize,
     pub caught: usize,
     pub sites: Vec<Site>,
+    /// an earlier call of the same history met a failure that was caught by a reply
+    pub caught_in_earlier_call: bool,
 }
 
 pub struct Actual {
@@ -231,7 +233,8 @@ pub fn compare_traces(pred: &Pred, act: &Actual, top_ok_and_events_agree: Option
             return Some(Disc::new(
                 if field == "env.contract.address" && p.kind == Kind::Instantiate {
                     // the address of a new contract: derivation (C11), or leaked registry state after a failure (C02)
-                    if failed_before { &["C02"] } else { &["C11"] }
+                    // (a sub-message that failed in an earlier call - and was caught there - must not have left anything behind either)
+                    if failed_before { &["C02"] } else if pred.caught_in_earlier_call { &["C11", "C02"] } else { &["C11"] }
                 } else if after_failure && !callee_entry && pred.funded_fail_before.get(i).copied().unwrap_or(0) > 0 {
                     // a failed call had funds attached: they must have been returned (C05), by rollback (C02);
                     // the balance is observed through a bank query, which must show no rolled-back effect (C10)
